@@ -95,6 +95,11 @@ def rule_copy_store(ctx: RuleContext, p: Program, rid: str) -> None:
         problems.append('does not return self.clone(...)')
     else:
         a = ret[0].value.args
+        if a and isinstance(a[0], ast.Call) and (dotted(a[0].func) or '').endswith('TokenStore.from_tokens'):
+            # canonical form: the fresh store is built inline
+            if tok_list is None or norm(a[0].args[0]) != tok_list:
+                problems.append(f'store built from {norm(a[0].args[0])}, not the list of copies')
+            store_var = norm(a[0])
         if len(a) != 2 or norm(a[0]) != store_var:
             problems.append(f'clone target is {norm(a[0]) if a else None}, not the fresh store')
         if len(a) == 2 and not (isinstance(a[1], ast.Call) and norm(a[1].func).endswith('MappingTokenTransformer')
